@@ -226,6 +226,9 @@ func monSetup(w *simWorld) error {
 	}
 	// letters only: the MRT writer runs the file name through time.Format when rotation is on
 	st.mrtDir = filepath.Join("mrtscratch", "p"+lettersOf(int64(os.Getpid()))+"r"+lettersOf(monRunCounter.Add(1)))
+	// (process ids come round again quickly with one process per run: a directory left behind by
+	// an aborted run of an earlier process with this id must not be mistaken for this run's dumps)
+	os.RemoveAll(st.mrtDir)
 	if err := os.MkdirAll(st.mrtDir, 0o755); err != nil {
 		return err
 	}
@@ -932,7 +935,17 @@ func genMon(seed uint64, tier, mode string) *Script {
 					if c.AddPathRecv {
 						pid = uint32(g.rng(1, 2))
 					}
-					ops = append(ops, Op{Kind: "ann", Actor: i, Delay: d, Family: fam, Prefix: pfx, PathID: pid, Attrs: mkAttrs(c, is6), Tag: mkTag(i, serial)})
+					ann := Op{Kind: "ann", Actor: i, Delay: d, Family: fam, Prefix: pfx, PathID: pid, Attrs: mkAttrs(c, is6), Tag: mkTag(i, serial)}
+					ops = append(ops, ann)
+					if is6 && g.p(40) {
+						// the same announcement again with nothing but the next hop changed (the next
+						// hop of an MP family lives inside MP_REACH_NLRI, not among the other attributes)
+						re := ann
+						a2 := *ann.Attrs
+						a2.NextHop = fmt.Sprintf("2001:db8::1:%x", c.Idx+2)
+						re.Attrs, re.Delay = &a2, pick(g, []int{0, 50, 400, 2000})
+						ops = append(ops, re)
+					}
 				case r < 75:
 					fam, pfx := "ipv4-unicast", pick(g, pool)
 					if v6 && hasString(c.Families, "ipv6-unicast") && g.p(35) {
